@@ -6,8 +6,17 @@ is left that anybody could still be waiting for, responses already delivered are
 operations fail at once.  Partial, named: that tokio wakes a task whose oneshot sender / channel
 sender was dropped, and that an enabled `select!` arm is eventually taken, is trusted and exercised
 by lane `faults` under a virtual-time watchdog (every byte offset of both streams), not proved.
+
+Whole histories (invariant `Pend`, Lemmas/ConnPend.lean, preserved by every event):
+`C04_waiting_is_registered` — in EVERY reachable state a call whose request the driver has taken and
+whose reply slot is still empty is registered in the result map (somebody will fill the slot or drop
+its sender); `C04_dead_connection_nobody_waits` — in EVERY reachable state in which the driver has
+ended, for whatever reason and at whatever point, every call that got as far as queueing its request
+resolves at its next poll (with the response if one had been delivered, with an error otherwise),
+and every started search stream's `next()` returns a queued item or `EndOfStream`, never "pending".
+Hypothesis `FreshRun2` (finding F13), discharged for histories with at most 2^31-1 allocations.
 -/
-import Ldap3V.Lemmas.ConnSteps
+import Ldap3V.Lemmas.ConnPend
 namespace Ldap3V.Conn
 
 /-- Whatever the state, when the driver ends: the queue and both routing maps are dropped; every
@@ -112,6 +121,72 @@ example :
     let s := run (init 100) [.alloc .single, .enqueue 0 none, .alloc .search, .enqueue 1 none, .alloc .single,
       .enqueue 2 none, .drvOp true, .drvOp true, .srvSend ⟨1, 11, 7, true⟩, .drvResp, .srvClose, .drvResp]
     s.drv = .endedOk ∧ s.ops.map (·.mail) = [.frame ⟨1, 11, 7, true⟩, .ack, .dropped] ∧ chanOpen s 0 = false := by
+  decide
+
+/-- **whole histories**: a caller waiting with an empty reply slot is known to the driver -/
+theorem C04_waiting_is_registered (N : Nat) (evs : List Ev) (hf : FreshRun2 (init N) evs) (i : Nat) (o : Op)
+    (ho : (run (init N) evs).ops[i]? = some o) (hp : o.phase = .taken) (hm : o.mail = .empty) :
+    (o.id, i) ∈ (run (init N) evs).resultmap :=
+  (reach N evs hf).1 i o ho hp hm
+
+/-- **whole histories**: once the driver has ended nobody is left waiting.  (1) every call that
+queued its request and has not returned yet resolves at its next poll — with the response if it had
+been delivered (even after a deadline), with an error if not, never with anything else;
+(2) `next()` on a started search stream returns an item that was queued before, or `EndOfStream`. -/
+theorem C04_dead_connection_nobody_waits (N : Nat) (evs : List Ev) (hf : FreshRun2 (init N) evs)
+    (hd : (run (init N) evs).drv ≠ .running) :
+    (∀ (i : Nat) (o : Op), (run (init N) evs).ops[i]? = some o → o.phase ≠ .allocated → o.res = none →
+      ∃ r s', step (run (init N) evs) (.poll i) = some (s', .res (some r)) ∧
+        (∀ f, o.mail = .frame f → r = .frame f) ∧ (o.mail = .ack → r = .ack) ∧ (o.mail = .dropped → r = .recvErr)) ∧
+    (∀ (c : Nat) (ch : Chan) (dl : Option Nat), (run (init N) evs).chans[c]? = some ch →
+      ((run (init N) evs).ops[ch.opIdx]?.bind (·.res)) = some .ack → ch.rxAlive = true →
+      (∃ it, ch.items[ch.taken]? = some it ∧ ∃ s', step (run (init N) evs) (.recv c dl) = some (s', .item (some it))) ∨
+      (ch.items[ch.taken]? = none ∧ step (run (init N) evs) (.recv c dl) = some (run (init N) evs, .closed))) := by
+  obtain ⟨hp, _, ha, _⟩ := reach N evs hf
+  obtain ⟨d1, d2, d3⟩ := ha.dead hd
+  refine ⟨?_, ?_⟩
+  · intro i o ho hph hres
+    have htaken : o.phase = .taken := by
+      cases hq : o.phase with
+      | allocated => exact absurd hq hph
+      | queued => have := ha.phaseQ i o ho hq; rw [d3] at this; cases this
+      | taken => rfl
+    have hmail : o.mail ≠ .empty := by
+      intro hm
+      have := hp i o ho htaken hm
+      rw [d1] at this; cases this
+    obtain ⟨r, s', h1, _, h2, h3, h4⟩ := C04_nonempty_mailbox_resolves _ i o ho hres hph hmail
+    exact ⟨r, s', h1, h2, h3, h4⟩
+  · intro c ch dl hc hack hrx
+    have hopen : chanOpen (run (init N) evs) c = false := by
+      simp [chanOpen, d2, d3]
+    cases hi : ch.items[ch.taken]? with
+    | some it =>
+      left
+      refine ⟨it, rfl, { run (init N) evs with chans := (run (init N) evs).chans.set c { ch with taken := ch.taken + 1 } }, ?_⟩
+      simp only [step, hc, hack, hrx, hi]
+      simp
+    | none =>
+      right
+      refine ⟨rfl, ?_⟩
+      simp only [step, hc, hack, hrx, hi, hopen]
+      simp
+
+/-- the same for every history with at most `N` (= 2^31-1) allocations, with no schedule hypothesis -/
+theorem C04_dead_connection_nobody_waits_nowrap (N : Nat) (evs : List Ev) (hcount : allocCount evs ≤ N)
+    (hd : (run (init N) evs).drv ≠ .running) (i : Nat) (o : Op)
+    (ho : (run (init N) evs).ops[i]? = some o) (hph : o.phase ≠ .allocated) (hres : o.res = none) :
+    ∃ r s', step (run (init N) evs) (.poll i) = some (s', .res (some r)) :=
+  let ⟨r, s', h, _⟩ := (C04_dead_connection_nobody_waits N evs (freshRun2_init N evs hcount) hd).1 i o ho hph hres
+  ⟨r, s', h⟩
+
+/-! ### non-vacuity (tests): a connection that dies with one call answered, one waiting, one search open -/
+example :
+    let evs : List Ev := [.alloc .single, .enqueue 0 none, .alloc .single, .enqueue 1 none, .alloc .search, .enqueue 2 none,
+      .drvOp true, .drvOp true, .drvOp true, .srvSend ⟨1, 11, 7, true⟩, .drvResp, .poll 2, .srvClose, .drvResp]
+    let s := run (init 100) evs
+    s.drv ≠ .running ∧ allocCount evs ≤ 100 ∧ s.ops.map (·.mail) = [.frame ⟨1, 11, 7, true⟩, .dropped, .ack] ∧
+    s.ops.map (·.res) = [none, none, some .ack] := by
   decide
 
 end Ldap3V.Conn
